@@ -245,6 +245,12 @@ func cmdCheck(args []string) int {
 		}
 		l.explore(ws, entry)
 		l.crossCheck()
+		if len(l.Covers) == 0 && len(l.ViolCount) == 0 {
+			l.Inconcl["vacuity: no verifCover point was reached on any feasible path"]++
+		}
+		if sumMap(l.Asserts) == 0 && len(l.ViolCount) == 0 {
+			l.Inconcl["vacuity: no assertion was reached on any feasible path"]++
+		}
 		status := "holds"
 		if len(l.ViolCount) > 0 {
 			status = "COUNTEREXAMPLE"
@@ -262,6 +268,9 @@ func cmdCheck(args []string) int {
 			}
 			if l.BudgetHit {
 				fmt.Printf("    path budget (%d) exhausted\n", l.MaxPaths)
+			}
+			for _, k := range sortedKeys(l.Inconcl) {
+				fmt.Printf("    inconclusive x%d: %s\n", l.Inconcl[k], k)
 			}
 		}
 	}
